@@ -189,4 +189,39 @@ theorem allocate_mem_free (s : TState) (a : AllocReq) (ms : List Nat) (h : alloc
         · exact List.mem_cons_of_mem _ (ih x h1)
     exact this s.free (m', f) hin
 
+/-- every entry of the free map of a filtered view sits on a minor the view admits and calcFreeWithPreemptible has an entry for -/
+theorem filterT_free_keys (s : TState) (ms : List Nat) (pre req : DevRes) (m : Nat) (f : RL)
+    (h : (m, f) ∈ (filterT s (some ms) pre req).free) :
+    ms.contains m = true ∧ ∃ e, (m, e) ∈ calcFree s pre req := by
+  unfold filterT at h
+  simp only [] at h
+  split at h
+  · simp [TState.empty] at h
+  · simp only [resetFree, addPhantoms, List.map_append, List.mem_append, List.mem_map, List.mem_filter] at h
+    rcases h with ⟨⟨m', x⟩, hmem, heq⟩ | ⟨⟨m', x⟩, hmem, heq⟩
+    · simp only [Prod.mk.injEq] at heq
+      obtain ⟨rfl, _⟩ := heq
+      obtain ⟨⟨k, e⟩, ⟨hk1, hk2⟩, hk3⟩ := hmem
+      simp only [Prod.mk.injEq] at hk3
+      obtain ⟨rfl, _⟩ := hk3
+      exact ⟨hk2, e, hk1⟩
+    · simp only [Prod.mk.injEq] at heq
+      obtain ⟨rfl, _⟩ := heq
+      obtain ⟨⟨k, e⟩, ⟨⟨hk1, _⟩, _⟩, hk3⟩ := hmem
+      obtain ⟨⟨k2, e2⟩, ⟨hk4, hk5⟩, hk6⟩ := hk1
+      simp only [Prod.mk.injEq] at hk6 hk3
+      obtain ⟨rfl, _⟩ := hk6
+      obtain ⟨rfl, _⟩ := hk3
+      exact ⟨hk5, e2, hk4⟩
+
+/-- with required amounts and nothing preemptible, calcFreeWithPreemptible only has entries for required minors -/
+theorem calcFree_required_keys (s : TState) (req : DevRes) (hr : req ≠ []) (m : Nat) (e : RL)
+    (h : (m, e) ∈ calcFree s [] req) : drHas req m = true := by
+  have hne : req.isEmpty = false := by cases req <;> simp_all
+  simp only [calcFree, List.isEmpty_nil, if_true, hne, Bool.false_eq_true, if_false, List.mem_map, List.mem_filter] at h
+  obtain ⟨⟨k, v⟩, ⟨_, hk⟩, heq⟩ := h
+  simp only [Prod.mk.injEq] at heq
+  obtain ⟨rfl, _⟩ := heq
+  exact hk
+
 end KoordVerif.C07
